@@ -22,6 +22,16 @@ PROFILES = [
     S.profile(max_tasks=4, horizon=(3, 7), p_resources=70, task_constraints=(0, 3), optional_rules=(0, 1), resource_constraints=(0, 2), buffers=(0, 1), fol=(0, 1), optional_constraints=15, indicators=(0, 2), indicator_constraints=30, p_work_amount=20, exclude=EXCLUDE),
 ]
 
+# strata aimed at interactions that the mixed profiles reach too rarely (each one was a defect of the pinned tree)
+PROFILES += [
+    # two selections over three common workers, with Same/DistinctWorkers
+    S.profile(min_tasks=2, max_tasks=3, horizon=(2, 5), p_no_horizon=5, p_resources=100, n_workers=(3, 3), p_select=100, p_cumulative=0, task_constraints=(0, 1), optional_rules=(0, 0),
+              resource_constraints=(1, 1), focus=["SameWorkers", "DistinctWorkers"], p_optional=20, p_work_amount=5),
+    # optional tasks with delay_in / early_out under periodic and sorting constraints; unselected workers (parking instants)
+    S.profile(min_tasks=2, max_tasks=3, horizon=(3, 6), p_no_horizon=5, p_resources=100, n_workers=(2, 3), p_select=60, p_cumulative=10, p_delay=60, task_constraints=(0, 1), optional_rules=(0, 0),
+              resource_constraints=(1, 2), focus=["ResourceNonDelay", "ResourceTasksDistance", "ResourcePeriodicallyUnavailable", "ResourcePeriodicallyInterrupted"], p_optional=60, p_work_amount=5, p_interleave=15),
+]
+
 
 def prop(ctx, case):
     out = cands.completeness_case(ctx, case, "C05.completeness")
@@ -53,7 +63,7 @@ def prop(ctx, case):
 
 
 def run_shard(ctx):
-    n = {"quick": 90, "thorough": 900}[ctx.tier]
+    n = {"quick": 55, "thorough": 600}[ctx.tier]
     for prof in PROFILES:
         run_hypothesis(ctx, S.spec_with_pins(prof, n_sets=3, n_cands=10), prop, max_examples=n)
 
